@@ -105,6 +105,21 @@ func isErrValue(e ssa.Value, at *ssa.BasicBlock, depth int) bool {
 			}
 			return true
 		}
+		// an error constructor of the module itself: every return of the callee is a
+		// non-nil error (errInvalidDirection(d) = Wrap(ErrInvalidDirection, d.String()))
+		if g := x.Common().StaticCallee(); g != nil && !x.Common().IsInvoke() && g.Blocks != nil && isIrismodFunc(g) &&
+			g.Signature.Results().Len() == 1 && lastResultIsError(g) {
+			rets := returnsOf(g)
+			all := len(rets) > 0
+			for _, r := range rets {
+				if !isErrValue(r.Results[0], r.Block(), depth+1) {
+					all = false
+				}
+			}
+			if all {
+				return true
+			}
+		}
 	case *ssa.Phi:
 		if errNonNilAt(x, at) {
 			return true // `err = f() / err = g(); if err != nil { return err }`
